@@ -89,6 +89,33 @@ def verify(sid):
         shutil.rmtree(wt, ignore_errors=True)
 
 
+def rebase(sid):
+    """If patch.diff no longer applies with `git apply` to the current /repo (fix commits
+    moved the context), re-create it in a scratch worktree with patch(1) + `git diff`."""
+    d = os.path.join(SEEDED, sid)
+    patch = os.path.join(d, "patch.diff")
+    if sh(["git", "-C", "/repo", "apply", "--check", patch]).returncode == 0:
+        return "applies"
+    wt = tempfile.mkdtemp(prefix="seedrebase-")
+    os.rmdir(wt)
+    try:
+        assert sh(["git", "-C", "/repo", "worktree", "add", "-q", "--detach", wt, "HEAD"]).returncode == 0
+        r = sh(["patch", "-p1", "-s", "--no-backup-if-mismatch", "-d", wt, "-i", patch])
+        if r.returncode:
+            return "DOES-NOT-APPLY: " + (r.stdout + r.stderr)[-200:]
+        new = sh(["git", "-C", wt, "diff"]).stdout
+        shutil.copy(patch, os.path.join(d, "patch.orig.diff"))
+        with open(patch, "w") as f:
+            f.write(new)
+        m = meta_of(sid)
+        m["rebased_on"] = sh(["git", "-C", "/repo", "log", "--format=%h", "-1"]).stdout.strip()
+        save_meta(sid, m)
+        return "rebased"
+    finally:
+        sh(["git", "-C", "/repo", "worktree", "remove", "--force", wt])
+        shutil.rmtree(wt, ignore_errors=True)
+
+
 def run_scratch(sid, tier, props):
     """Same as run() but against a scratch copy of /repo/src (CV_COBRA_SRC) - for use while
     something else is running against /repo.  Results are stored under '<tier>@scratch'."""
@@ -152,6 +179,9 @@ def main():
         else:
             ids += sorted(os.path.basename(p) for p in glob.glob(os.path.join(SEEDED, x + "*")) if os.path.isdir(p) and not os.path.basename(p).startswith("_"))
     for sid in ids:
+        if mode == "rebase":
+            print(f"{sid:28s} {rebase(sid)}", flush=True)
+            continue
         if mode == "verify":
             m = verify(sid)
             print(f"{sid:28s} {m.get('verify')} demo={m.get('demo')} tests={m.get('tests')}", flush=True)
